@@ -74,7 +74,7 @@ structure Writer where
   committed : Bool := false   -- ghost: did an EXEC of this call succeed
 
 /-- `add` / `update` / `remove` after the `HGET`: either finish without writing, or a batch with the result it will return -/
-def decide (op : WOp) (existing : Option Server) (now : Int) : WResult ⊕ (Batch × WResult) :=
+def decideOp (op : WOp) (existing : Option Server) (now : Int) : WResult ⊕ (Batch × WResult) :=
   let saveOf (s : Server) : WResult ⊕ (Batch × WResult) :=
     let s' := { s with version := s.version + 1 }
     .inr (.save s' now, .ok (some s'))
@@ -136,7 +136,7 @@ def wstep (st : RStore) (clock : Int) (fresh : Nat) (i : Nat) (c : Writer) : RSt
       if cell.token = c.tok then (st, { c with pc := .hget v }, false, none)
       else (st, { c with pc := .unwatch .retry }, false, none)
   | .hget v =>
-    match decide c.op (st.items[k]?) clock with
+    match decideOp c.op (st.items[k]?) clock with
     | .inl r => (st, { c with pc := .unwatch (.finished r) }, false, none)
     | .inr (b, r) => (st, { c with pc := .exec v (st.items[k]?) clock b r }, false, none)
   | .exec v _ _ b r =>
